@@ -210,11 +210,39 @@ fn run_codec(b: &[u8]) -> (O, usize) {
     let a = MAX_REQ.load(Relaxed);
     let o = match r {
         Err(p) => O::Panic(panic_text(p)),
-        Ok(Ok(Some(v))) => O::Done(from_zc(&v), before - buf.len()),
-        Ok(Ok(None)) => O::Inc,
+        Ok(Ok(Some(v))) => {
+            let first = from_zc(&v);
+            let consumed = before - buf.len();
+            // follow-up behaviour: what stays in the buffer is exactly the unconsumed tail ...
+            if consumed <= b.len() && buf[..] != b[consumed..] {
+                anomaly("RespCodec::parse: after a frame was taken, the buffer does not hold exactly the unconsumed bytes", b);
+            }
+            // ... and the decoded value does not change when the buffer is reused
+            buf.clear();
+            buf.extend_from_slice(&[0xAAu8; 48]);
+            if from_zc(&v) != first {
+                anomaly("RespCodec::parse: the decoded value changes when the input buffer is reused", b);
+            }
+            O::Done(first, consumed)
+        }
+        Ok(Ok(None)) => {
+            if buf[..] != b[..] {
+                anomaly("RespCodec::parse: the buffer was modified although more bytes were requested", b);
+            }
+            O::Inc
+        }
         Ok(Err(e)) => classify(&e),
     };
     (o, a)
+}
+/// failures noticed inside helpers; drained into the case's violations by the main loop
+static ANOM: std::sync::Mutex<Vec<(String, String)>> = std::sync::Mutex::new(Vec::new());
+fn anomaly(what: &str, input: &[u8]) {
+    let mut g = ANOM.lock().unwrap();
+    if g.len() < 4 {
+        let h = if input.len() <= 256 { hex(input) } else { format!("{}... ({} bytes)", hex(&input[..64]), input.len()) };
+        g.push((what.to_string(), h));
+    }
 }
 fn run_parser(b: &[u8]) -> (O, usize) {
     MAX_REQ.store(0, Relaxed);
@@ -233,11 +261,12 @@ fn run_parser(b: &[u8]) -> (O, usize) {
 fn ascii(s: &[u8]) -> bool {
     s.iter().all(|c| *c < 128)
 }
-/// equality of values where RespParser's lossy UTF-8 conversion of simple strings and
-/// errors is excluded: such payloads are compared only when the codec's bytes are ASCII
+/// equality of a RespCodec value (raw bytes) and a RespParser value: simple strings and
+/// errors of RespParser went through String::from_utf8_lossy, so its payload must be
+/// exactly the lossy conversion of the codec's bytes (the identity on valid UTF-8)
 fn v_eq_lossy(c: &V, p: &V) -> bool {
     match (c, p) {
-        (V::S(a), V::S(b)) | (V::E(a), V::E(b)) => !ascii(a) || a == b,
+        (V::S(a), V::S(b)) | (V::E(a), V::E(b)) => String::from_utf8_lossy(a).as_bytes() == &b[..],
         (V::A(a), V::A(b)) => a.len() == b.len() && a.iter().zip(b).all(|(x, y)| v_eq_lossy(x, y)),
         (a, b) => a == b,
     }
@@ -890,6 +919,17 @@ fn big_specs(level: u64) -> Vec<Big> {
     for &n in &blens {
         v.push(Big { name: format!("bulk string of {} bytes{}", n, if n % 2 == 1 { " + PING" } else { "" }), kind: BigKind::Complete(VG::Fill(n, b'x'), n % 2 == 1) });
     }
+    // frames of 255 / 256 / 257 bytes: RespCodec::encode starts with a 256-byte buffer
+    for n in [247usize, 248, 249] {
+        v.push(Big { name: format!("bulk string of {} bytes (frame of {} bytes)", n, n + 8), kind: BigKind::Complete(VG::Fill(n, b'y'), false) });
+    }
+    for n in [252usize, 253, 254] {
+        v.push(Big { name: format!("simple string of {} bytes (frame of {} bytes)", n, n + 3), kind: BigKind::Complete(VG::V(V::S(vec![b'a'; n])), true) });
+        v.push(Big { name: format!("error of {} bytes (frame of {} bytes)", n, n + 3), kind: BigKind::Complete(VG::V(V::E(vec![b'e'; n])), false) });
+    }
+    for n in [41usize, 42, 62, 63, 64] {
+        v.push(Big { name: format!("array of {} x \"$0\\r\\n\\r\\n\" (frame around 256 bytes)", n), kind: BigKind::Complete(VG::Rep(n, Box::new(el(1))), true) });
+    }
     for &n in &[65537usize, 131073] {
         v.push(Big { name: format!("bulk string announcing {} bytes, trailing CRLF missing", n), kind: BigKind::Prefix(VG::Fill(n, b'x'), 2) });
         v.push(Big { name: format!("[bulk string of {} bytes, :1] + PING", n), kind: BigKind::Complete(VG::Arr(vec![VG::Fill(n, b'\r'), el(0)]), true) });
@@ -921,7 +961,7 @@ fn frames_brief(r: &(Vec<V>, O, Vec<u8>)) -> String {
 }
 
 /// O1, O2, O4, O5, O7, O8, O9 on one complete size-boundary frame; returns the Coq term
-fn big_complete(cx: &mut Ctx, name: &str, g: &VG, trail: bool, verbose: bool) -> String {
+fn big_complete(cx: &mut Ctx, name: &str, g: &VG, trail: bool, verbose: bool, level: u64) -> String {
     let v = vg_value(g);
     let mut f = Vec::new();
     vg_frame(g, &mut f);
@@ -964,7 +1004,10 @@ fn big_complete(cx: &mut Ctx, name: &str, g: &VG, trail: bool, verbose: bool) ->
     }
     let want_stream = (want_frames, O::Inc, Vec::new());
     let mut plans: Vec<(String, Vec<&[u8]>)> = vec![("whole".to_string(), vec![&input[..]])];
-    for sz in [65536usize, 8192, 4093] {
+    // read sizes: 64 KiB, the 8 KiB read buffer, an odd size; in the thorough tier also the
+    // neighbours of 4096 (BufferPool's buffer capacity) and 8192
+    let sizes: Vec<usize> = if level >= 2 { vec![65536, 8192, 4093, 4096, 4097, 8191, 8193] } else { vec![65536, 8192, 4093] };
+    for sz in sizes {
         if input.len() > sz {
             plans.push((format!("{}-byte reads", sz), input.chunks(sz).collect()));
         }
@@ -1087,7 +1130,7 @@ fn main() {
     const SWEEP_BASE: u64 = 1 << 40; // case ids >= SWEEP_BASE address strings of the sweep
     let mut out = Out::new(&args.out, "C15", args.shards, HEADER);
     out.nontrivial_rule = format!(
-        "cases 0..{} are ALL byte strings of length <= {} over the 12-symbol near-grammar alphabet {{+ - : $ * 0 1 9 CR LF a 0xFF}} (exhaustive; each also compared with the Coq model); the property oracles O1-O7 are additionally evaluated on ALL strings of length <= {} over that alphabet (oracle-only sweep, counted in impl_property_checks). The next {} cases are the size-boundary frames (deterministic list, --big level): complete arrays of 2^k-1 / 2^k / 2^k+1 short elements up to 2^17+1 (2^18+1 in the thorough tier) flat, nested once (outer small / inner huge, outer huge / inner small) and as DEL requests, bulk strings of the same lengths (to 2^20+1 in thorough), each followed by a PING frame or by nothing, fed whole and in 65536- / 8192- / 4093-byte reads and split at the last byte / after the header, re-encoded by both public encoders; the same arrays with the last element or byte missing; lengths announced without data around 2^16, 2^17, 512 MiB, 2^31, 2^32. They are judged by the direct oracles against the value written by rule; Coq rebuilds the value from the rule, checks well-formedness, that encode gives the bytes that were fed (length, hash) and the consumed counts, and evaluates the model itself when the frame has <= 1100 elements and bulks <= 20000 bytes (beyond that the model's answer is given by theorems C15_encode_decode / C15_parse_prefix_incomplete). Remaining cases by class: near-grammar random strings of length {}..12, uniformly random bytes, mutations of valid encodings (length digits changed, negative / huge / i64-boundary lengths, lone CR, deleted and inserted bytes), valid multi-frame streams with ALL fragmentations of <= 3 cuts (streams up to 26 bytes; 300 sampled cut sets plus byte-by-byte above), RespValue trees through both public encoders and back through both decoders, nesting depth 1..100000 (decoded in a child process on a 2 MiB stack when deeper than 64), executor replies to commands carrying CR LF (names, arguments, Lua status/error replies). Non-trivial = the input is not decided by its first byte alone (some decoder consumed a CRLF-terminated line or the result is Incomplete); distinct by input bytes.",
+        "cases 0..{} are ALL byte strings of length <= {} over the 12-symbol near-grammar alphabet {{+ - : $ * 0 1 9 CR LF a 0xFF}} (exhaustive; each also compared with the Coq model); the property oracles O1-O7 are additionally evaluated on ALL strings of length <= {} over that alphabet (oracle-only sweep, counted in impl_property_checks). The next {} cases are the size-boundary frames (deterministic list, --big level): complete arrays of 2^k-1 / 2^k / 2^k+1 short elements up to 2^17+1 (2^18+1 in the thorough tier) flat, nested once (outer small / inner huge, outer huge / inner small) and as DEL requests, bulk strings of the same lengths (to 2^20+1 in thorough), each followed by a PING frame or by nothing, fed whole and in 65536- / 8192- / 4093-byte reads and split at the last byte / after the header, re-encoded by both public encoders; the same arrays with the last element or byte missing; lengths announced without data around 2^16, 2^17, 512 MiB, 2^31, 2^32. They are judged by the direct oracles against the value written by rule; Coq rebuilds the value from the rule, checks well-formedness, that encode gives the bytes that were fed (length, hash) and the consumed counts, and evaluates the model itself when the frame has <= 1100 elements and bulks <= 20000 bytes (beyond that the model's answer is given by theorems C15_encode_decode / C15_parse_prefix_incomplete). Remaining cases by class: near-grammar random strings of length {}..12, uniformly random bytes, mutations of valid encodings (length digits changed, negative / huge / i64-boundary lengths, lone CR, deleted and inserted bytes), valid multi-frame streams with ALL fragmentations of <= 3 cuts (streams up to 26 bytes; 300 sampled cut sets plus byte-by-byte above), RespValue trees through both public encoders and back through both decoders, nesting depth 1..100000 (decoded in a child process on a 2 MiB stack when deeper than 64), executor replies to commands carrying CR LF (names, arguments, Lua status/error replies), lines of 15..4097 bytes with lone CR / LF / CR CR LF at chosen offsets and long runs of leading zeros, lines with valid and invalid multi-byte UTF-8, streams decoded in BufferPool buffers left dirty by earlier users and by 4 threads at once, values built by the RespValue constructors. Non-trivial = the input is not decided by its first byte alone (some decoder consumed a CRLF-terminated line or the result is Incomplete); distinct by input bytes.",
         n_exh, exh, sweep, n_big, exh + 1
     );
     out.count(&format!("size_of_RespValueZeroCopy:{}", std::mem::size_of::<RespValueZeroCopy>()));
@@ -1128,7 +1171,7 @@ fn main() {
             }
             match &b.kind {
                 BigKind::Complete(g, trail) => {
-                    term = big_complete(&mut cx, &b.name, g, *trail, verbose);
+                    term = big_complete(&mut cx, &b.name, g, *trail, verbose, args.get("big", 1));
                     out.count(if vg_elems(g) > 65536 || vg_maxbulk(g) > 65536 { "size_boundary:complete_gt_65536" } else { "size_boundary:complete_le_65536" });
                 }
                 BigKind::Prefix(g, missing) => {
@@ -1150,20 +1193,24 @@ fn main() {
             let class = rng.gen_range(0..100);
             if class < 62 {
                 // ---------------- single inputs for both decoders
-                let (b, cname) = if class < 14 {
+                let (b, cname) = if class < 10 {
                     let n = rng.gen_range(exh as usize + 1..13);
                     ((0..n).map(|_| ALPHA[rng.gen_range(0..12)]).collect::<Vec<u8>>(), "near_grammar_random")
-                } else if class < 24 {
+                } else if class < 18 {
                     let n = rng.gen_range(0..25);
                     let mut v: Vec<u8> = (0..n).map(|_| rng.gen()).collect();
                     if n > 0 && rng.gen_bool(0.6) {
                         v[0] = ALPHA[rng.gen_range(0..5)];
                     }
                     (v, "random_bytes")
-                } else if class < 50 {
+                } else if class < 40 {
                     (gen_mutation(&mut rng), "mutated_encoding")
-                } else {
+                } else if class < 49 {
                     (gen_lengths(&mut rng), "boundary_lengths")
+                } else if class < 56 {
+                    (gen_long_line(&mut rng), "long_lines_cr_positions")
+                } else {
+                    (gen_utf8_line(&mut rng), "utf8_lines")
                 };
                 out.count(&format!("class:{}", cname));
                 if cx.prealloc_unbounded && dangerous_prealloc(&b) {
@@ -1190,28 +1237,11 @@ fn main() {
                     out.sample(json!({"input_hex": hex(&b), "codec": o_show(&c), "parser": o_show(&p)}));
                 }
             } else if class < 74 {
-                // ---------------- streams and their fragmentations
-                out.count("class:stream_fragmentation");
-                let nf = rng.gen_range(1..5);
-                let mut s = Vec::new();
-                for _ in 0..nf {
-                    let v = gen_value(&mut rng, 2, true);
-                    s.extend_from_slice(&enc_codec(&v));
-                    if s.len() > 60 {
-                        break;
-                    }
-                }
-                match rng.gen_range(0..10) {
-                    0 => {
-                        let k = rng.gen_range(0..=s.len());
-                        s.truncate(k);
-                    }
-                    1 => s.extend_from_slice(b"x\r\n"),
-                    2 => s.extend_from_slice(b"$-2\r\n"),
-                    3 => s.extend_from_slice(b"+a\rb"),
-                    _ => {}
-                }
-                let (frames, fin, rest) = fragment_oracle(&mut cx, &s, &mut rng);
+                // ---------------- streams and their fragmentations; through shared state
+                let s = gen_stream(&mut rng);
+                let shared = class >= 71;
+                out.count(if shared { "class:stream_pooled_buffer_and_threads" } else { "class:stream_fragmentation" });
+                let (frames, fin, rest) = if shared { shared_state_oracle(&mut cx, &s, &mut rng) } else { fragment_oracle(&mut cx, &s, &mut rng) };
                 let t = match &fin {
                     O::Inc => format!("(JMore {})", chex(&rest)),
                     O::Err(k) => format!("(JErr {})", k_term(*k)),
@@ -1231,9 +1261,9 @@ fn main() {
             } else if class < 90 {
                 // ---------------- values through the encoders and back
                 let wf = rng.gen_bool(0.85);
-                let v = gen_value(&mut rng, 3, wf);
+                let v = if class >= 88 { gen_constructed(&mut cx, &mut rng) } else { gen_value(&mut rng, 3, wf) };
                 let wfv = v_wf(&v);
-                out.count(if wfv { "class:encode_decode_wf" } else { "class:encode_decode_crlf_in_line" });
+                out.count(if class >= 88 { "class:respvalue_constructors" } else if wfv { "class:encode_decode_wf" } else { "class:encode_decode_crlf_in_line" });
                 let ec = enc_codec(&v);
                 let ep = enc_parser(&v);
                 cx.checks += 1;
@@ -1319,6 +1349,9 @@ fn main() {
         }
         out.impl_checks += cx.checks;
         cx.checks = 0;
+        for (w, h) in ANOM.lock().unwrap().drain(..) {
+            cx.fail(&w, json!({"input_hex": h}));
+        }
         for (w, d) in cx.viol.drain(..) {
             report(&mut out, &mut seen, i, &w, d);
         }
@@ -1366,6 +1399,264 @@ fn tally(out: &mut Out, c: &O) {
         O::Other(_) => "codec_outcome:err_unclassified",
         O::Panic(_) => "codec_outcome:panic",
     });
+}
+
+/// 1..4 encoded values, sometimes truncated or followed by something undecodable
+fn gen_stream(rng: &mut Rng) -> Vec<u8> {
+    let nf = rng.gen_range(1..5);
+    let mut s = Vec::new();
+    for _ in 0..nf {
+        let v = gen_value(rng, 2, true);
+        s.extend_from_slice(&enc_codec(&v));
+        if s.len() > 60 {
+            break;
+        }
+    }
+    match rng.gen_range(0..10) {
+        0 => {
+            let k = rng.gen_range(0..=s.len());
+            s.truncate(k);
+        }
+        1 => s.extend_from_slice(b"x\r\n"),
+        2 => s.extend_from_slice(b"$-2\r\n"),
+        3 => s.extend_from_slice(b"+a\rb"),
+        _ => {}
+    }
+    s
+}
+
+/// frames cut out of `s` appended to an existing buffer (which must be empty)
+fn feed_into(mut buf: BytesMut, s: &[u8]) -> (Vec<V>, O, Vec<u8>, BytesMut) {
+    let mut frames = Vec::new();
+    buf.extend_from_slice(s);
+    loop {
+        match catch_unwind(AssertUnwindSafe(|| RespCodec::parse(&mut buf))) {
+            Err(p) => return (frames, O::Panic(panic_text(p)), Vec::new(), buf),
+            Ok(Ok(Some(v))) => frames.push(from_zc(&v)),
+            Ok(Ok(None)) => break,
+            Ok(Err(e)) => return (frames, classify(&e), Vec::new(), buf),
+        }
+    }
+    let rest = buf.to_vec();
+    (frames, O::Inc, rest, buf)
+}
+
+/// Lesson "state shared across instances": the stream decoded (a) in buffers of a
+/// BufferPool (resp_optimized.rs) whose earlier users stopped in the middle of a frame or
+/// after an error and released more buffers than the pool holds, (b) by several threads at
+/// once next to other inputs, must give what a fresh buffer gives alone.
+fn shared_state_oracle(cx: &mut Ctx, s: &[u8], rng: &mut Rng) -> (Vec<V>, O, Vec<u8>) {
+    use redis_sim::redis::BufferPool;
+    let alone = feed_codec(&[s]);
+    let (size, cap) = [(1usize, 16usize), (2, 0), (3, 4096), (256, 4096), (4, 8)][rng.gen_range(0..5)];
+    let pool = if size == 256 && rng.gen_bool(0.5) { BufferPool::default() } else { BufferPool::new(size, cap) };
+    // earlier connections: take size-1 / size / size+1 / 2*size+1 buffers, leave garbage in them
+    let takes = [size.saturating_sub(1), size, size + 1, 2 * size + 1][rng.gen_range(0..4)].min(600);
+    let mut held = Vec::new();
+    for k in 0..takes {
+        let mut b = pool.acquire();
+        cx.checks += 1;
+        if !b.is_empty() {
+            cx.fail("BufferPool::acquire hands out a buffer that is not empty", json!({"pool_size": size, "buffer_capacity": cap, "len": b.len()}));
+        }
+        match k % 4 {
+            0 => b.extend_from_slice(b"*3\r\n$3\r\nSET\r\n$1\r\nk"), // stopped in the middle of a frame
+            1 => {
+                b.extend_from_slice(b"$-2\r\nrest"); // ended with a protocol error
+                let _ = catch_unwind(AssertUnwindSafe(|| RespCodec::parse(&mut b)));
+            }
+            2 => {
+                b.extend_from_slice(s); // half decoded
+                let _ = catch_unwind(AssertUnwindSafe(|| RespCodec::parse(&mut b)));
+            }
+            _ => b.extend_from_slice(&vec![b'+'; cap + 1]), // grown beyond its capacity
+        }
+        held.push(b);
+    }
+    for b in held {
+        pool.release(b);
+    }
+    // the next connections
+    for round in 0..(size.min(3) + 1) {
+        let b = pool.acquire();
+        cx.checks += 2;
+        if !b.is_empty() {
+            cx.fail("BufferPool::acquire hands out a buffer with bytes of its previous user", json!({"pool_size": size, "buffer_capacity": cap, "round": round, "stale_hex": hex(&b[..b.len().min(32)])}));
+        }
+        let (frames, fin, rest, b) = feed_into(b, s);
+        let got = (frames, fin, rest);
+        if got != alone {
+            cx.fail(
+                "a stream decoded in a pooled buffer gives other frames than in a fresh buffer",
+                json!({"stream_hex": hex(s), "pool_size": size, "buffer_capacity": cap, "round": round, "fresh": format!("{:?}", alone), "pooled": format!("{:?}", got)}),
+            );
+        }
+        pool.release(b);
+    }
+    // several threads at once, each with its own inputs, `s` among them
+    let mut inputs: Vec<Vec<u8>> = vec![s.to_vec(), gen_mutation(rng), gen_stream(rng), deep_input(33, b":1\r\n"), gen_long_line(rng)];
+    inputs.push(b"*2\r\n$3\r\nGET\r\n$1\r\nk\r\n".to_vec());
+    let seq: Vec<(O, O)> = inputs.iter().map(|b| (run_codec_plain(b), run_parser_plain(b))).collect();
+    let inputs = std::sync::Arc::new(inputs);
+    let mut hs = Vec::new();
+    for t in 0..4usize {
+        let inp = inputs.clone();
+        hs.push(std::thread::spawn(move || {
+            let mut res = Vec::new();
+            for r in 0..6 {
+                for k in 0..inp.len() {
+                    let j = (k + t + r) % inp.len();
+                    res.push((j, run_codec_plain(&inp[j]), run_parser_plain(&inp[j])));
+                }
+            }
+            res
+        }));
+    }
+    for h in hs {
+        if let Ok(res) = h.join() {
+            for (j, c, p) in res {
+                cx.checks += 2;
+                if c != seq[j].0 || p != seq[j].1 {
+                    cx.fail(
+                        "a decoder answers differently when other threads decode at the same time",
+                        json!({"input_hex": hex(&inputs[j]), "alone": format!("{} / {}", o_show(&seq[j].0), o_show(&seq[j].1)), "concurrent": format!("{} / {}", o_show(&c), o_show(&p))}),
+                    );
+                    break;
+                }
+            }
+        } else {
+            cx.fail("a decoder thread died", json!({"stream_hex": hex(s)}));
+        }
+    }
+    alone
+}
+/// the decoders without the (process-global) allocation tracking: usable from threads
+fn run_codec_plain(b: &[u8]) -> O {
+    let mut buf = BytesMut::from(b);
+    let before = buf.len();
+    match catch_unwind(AssertUnwindSafe(|| RespCodec::parse(&mut buf))) {
+        Err(p) => O::Panic(panic_text(p)),
+        Ok(Ok(Some(v))) => O::Done(from_zc(&v), before - buf.len()),
+        Ok(Ok(None)) => O::Inc,
+        Ok(Err(e)) => classify(&e),
+    }
+}
+fn run_parser_plain(b: &[u8]) -> O {
+    match catch_unwind(AssertUnwindSafe(|| RespParser::parse(b))) {
+        Err(p) => O::Panic(panic_text(p)),
+        Ok(Ok((v, n))) => O::Done(from_rv(&v), n),
+        Ok(Err(e)) => classify(&e),
+    }
+}
+
+/// values built with the public constructors of RespValue (resp.rs): err / simple must give
+/// one-line values whatever the text, unchanged when the text has no CR / LF
+fn gen_constructed(cx: &mut Ctx, rng: &mut Rng) -> V {
+    const T: [&str; 12] = ["OK", "", "ERR x", "a\r\nb", "\r", "\n", "x\r\n+INJECTED", "tab\tand \u{e9}\u{4e2d}", "ERR unknown command 'a\nb'", "\r\n\r\n", "trailing\r", "\nleading"];
+    let mut text = T[rng.gen_range(0..T.len())].to_string();
+    if rng.gen_bool(0.15) {
+        text = "z".repeat([254usize, 255, 256, 257, 1000][rng.gen_range(0..5)]);
+    }
+    let want: String = text.chars().map(|c| if c == '\r' || c == '\n' { ' ' } else { c }).collect();
+    let k = rng.gen_range(0..9);
+    let (rv, expect): (RespValue, V) = match k {
+        0 => (RespValue::err(text.clone()), V::E(want.clone().into_bytes())),
+        1 => (RespValue::simple(text.clone()), V::S(want.clone().into_bytes())),
+        2 => (RespValue::err(Cow::Owned(text.clone())), V::E(want.clone().into_bytes())),
+        3 => (RespValue::ok(), V::S(b"OK".to_vec())),
+        4 => (RespValue::pong(), V::S(b"PONG".to_vec())),
+        5 => (RespValue::queued(), V::S(b"QUEUED".to_vec())),
+        6 => (RespValue::nil(), V::NB),
+        7 => (RespValue::empty_array(), V::A(vec![])),
+        _ => (RespValue::Array(Some(vec![RespValue::err(text.clone()), RespValue::simple(text.clone()), RespValue::nil()])), V::A(vec![V::E(want.clone().into_bytes()), V::S(want.clone().into_bytes()), V::NB])),
+    };
+    let got = from_rv(&rv);
+    cx.checks += 1;
+    if got != expect {
+        cx.fail("a RespValue constructor does not build the one-line value of its text (CR / LF replaced by spaces, everything else unchanged)", json!({"constructor": k, "text_hex": hex(text.as_bytes()), "built": v_term(&got), "expected": v_term(&expect)}));
+    }
+    got
+}
+
+/// one line of each type around the sizes where a SIMD / word-at-a-time CR search changes
+/// gear (15..17, 31..33, 63..65, 127..129, 255..257, 1023..1025, 4095..4097 bytes), with lone
+/// CR, lone LF, CR CR LF, LF CR at chosen offsets; numeric lines with long runs of leading
+/// zeros; terminated, unterminated or ending in a bare CR
+fn gen_long_line(rng: &mut Rng) -> Vec<u8> {
+    const BASE: [usize; 7] = [16, 32, 64, 128, 256, 1024, 4096];
+    let hi = if rng.gen_bool(0.8) { 5 } else { 7 };
+    let target = BASE[rng.gen_range(0..hi)] + rng.gen_range(0..5) - 2;
+    let ty = [b'+', b'-', b':', b'$', b'*'][rng.gen_range(0..5)];
+    let mut b = vec![ty];
+    let body = target.saturating_sub(3);
+    if ty == b'+' || ty == b'-' {
+        b.extend(std::iter::repeat(b'a').take(body));
+    } else {
+        if rng.gen_bool(0.2) {
+            b.push(if rng.gen_bool(0.5) { b'+' } else { b'-' });
+        }
+        let small = [b'0', b'1', b'2', b'3'][rng.gen_range(0..4)];
+        while b.len() < body {
+            b.push(b'0');
+        }
+        b.push(small);
+    }
+    // special bytes at chosen offsets of the line
+    for _ in 0..rng.gen_range(0..4) {
+        let pos = match rng.gen_range(0..4) {
+            0 => 1 + rng.gen_range(0..b.len().max(2) - 1),
+            1 => b.len() - 1,
+            2 => [15usize, 16, 17, 31, 32, 33, 63, 64][rng.gen_range(0..8)].min(b.len() - 1),
+            _ => b.len().saturating_sub(2).max(1),
+        };
+        match rng.gen_range(0..5) {
+            0 => b[pos] = b'\r',
+            1 => b[pos] = b'\n',
+            2 => b.insert(pos, b'\r'),
+            3 => {
+                b[pos] = b'\n';
+                if pos + 1 < b.len() {
+                    b[pos + 1] = b'\r';
+                }
+            }
+            _ => b[pos] = 0xFF,
+        }
+    }
+    match rng.gen_range(0..8) {
+        0 => {}
+        1 => b.push(b'\r'),
+        2 => b.extend_from_slice(b"\r\r\n"),
+        _ => b.extend_from_slice(b"\r\n"),
+    }
+    match rng.gen_range(0..4) {
+        0 => b.extend_from_slice(b":1\r\n:2\r\n:3\r\n"),
+        1 => b.extend_from_slice(b"abc\r\n"),
+        _ => {}
+    }
+    b
+}
+
+/// simple strings / errors / integers whose line holds valid multi-byte UTF-8, truncated
+/// sequences, overlong forms, surrogates, bytes above F4 (RespParser converts lossily)
+fn gen_utf8_line(rng: &mut Rng) -> Vec<u8> {
+    const PIECES: [&[u8]; 18] = [
+        b"a", b"OK", "\u{e9}".as_bytes(), "\u{4e2d}".as_bytes(), "\u{1f600}".as_bytes(), "\u{7ff}".as_bytes(), "\u{800}".as_bytes(), "\u{ffff}".as_bytes(),
+        "\u{10ffff}".as_bytes(), b"\xc3", b"\xe4\xb8", b"\xf0\x9f\x98", b"\xc0\xaf", b"\xe0\x80\xaf", b"\xed\xa0\x80", b"\xf4\x90\x80\x80", b"\xff", b"\x80",
+    ];
+    let ty = [b'+', b'-', b'+', b':', b'$'][rng.gen_range(0..5)];
+    let mut b = vec![ty];
+    for _ in 0..rng.gen_range(0..6) {
+        b.extend_from_slice(PIECES[rng.gen_range(0..PIECES.len())]);
+    }
+    if rng.gen_bool(0.85) {
+        b.extend_from_slice(b"\r\n");
+    }
+    if rng.gen_bool(0.3) {
+        let mut o = b"*2\r\n:7\r\n".to_vec();
+        o.extend_from_slice(&b);
+        b = o;
+    }
+    b
 }
 
 /// a valid encoding with one mutation near the grammar
